@@ -1,4 +1,5 @@
 """C19 — Nested __type__ mappings translate bottom-up with exact error locations."""
+import copy
 import json
 
 from .. import corr
@@ -9,7 +10,9 @@ RULE = ("random trees of mappings, lists and scalars (depth <= 6, fan-out <= 5; 
         "at random positions, factories = function, submodule function, class, nested attribute, raising factory, "
         "non-callable attribute, module objects, unresolvable names (no module / no attribute / nested), non-string "
         "__type__; keys containing dots and brackets; non-trivial = at least two __type__ nodes; distinct = distinct "
-        "canonical tree JSON")
+        "canonical tree JSON; lists repeat equal siblings; in a third of the cases structurally equal sub-trees are one "
+        "shared Python object (alias), in a third the same hierarchy object is translated twice; the input is "
+        "compared with a pristine copy afterwards")
 ASSUMPTIONS = ["__import__/getattr inside load_name is the parameter `resolve` of the model; the correspondence exercises the real one on a synthetic package",
                "__args__ is a list (a non-list __args__ is outside the statement)"]
 TRUSTED = ["CPython dict insertion order, importlib"]
@@ -23,7 +26,11 @@ def gen_tree(rng, depth, allow_type=True):
     if depth <= 0 or r < 0.25:
         return {"s": rng.choice(["v", "w", "", "t.u"])} if rng.random() < 0.5 else {"n": rng.randint(0, 9)}
     if r < 0.5:
-        return {"l": [gen_tree(rng, depth - 1) for _ in range(rng.randint(0, 4))]}
+        items = [gen_tree(rng, depth - 1) for _ in range(rng.randint(0, 4))]
+        # equal siblings: the same definition repeated (an index must still name the position)
+        while items and rng.random() < 0.3:
+            items.insert(rng.randint(0, len(items)), copy.deepcopy(rng.choice(items)))
+        return {"l": items}
     keys = rng.sample(KEYS, rng.randint(0, 4))
     m = [[k, gen_tree(rng, depth - 1)] for k in keys]
     if allow_type and rng.random() < 0.6:
@@ -44,14 +51,23 @@ def gen_tree(rng, depth, allow_type=True):
     return {"m": m}
 
 
-def to_py(c):
+def to_py(c, memo=None):
+    """memo given: structurally equal sub-trees become one shared Python object (what a YAML
+    anchor/alias or a Python configuration reusing a dict produces)"""
     if "s" in c:
         return c["s"]
     if "n" in c:
         return c["n"]
+    key = json.dumps(c, sort_keys=True) if memo is not None else None
+    if key is not None and key in memo:
+        return memo[key]
     if "l" in c:
-        return [to_py(x) for x in c["l"]]
-    return {k: to_py(v) for k, v in c["m"]}
+        v = [to_py(x, memo) for x in c["l"]]
+    else:
+        v = {k: to_py(x, memo) for k, x in c["m"]}
+    if key is not None:
+        memo[key] = v
+    return v
 
 
 def canon(v, Obj):
@@ -72,17 +88,48 @@ def impl(case):
     from cobald.daemon.config.mapping import Translator, ConfigurationError
     mod = CTX["mod"]
     del mod.LOG[:]
-    structure = to_py(case["cfg"])
-    try:
-        res = Translator().translate_hierarchy(structure)
-        out = {"ok": canon(res, mod.Obj)}
-    except ConfigurationError as e:
-        out = {"err": e.where}
-    except Exception as e:
-        out = {"raised": type(e).__name__}
-    out["log"] = [[None, fid, [canon(a, mod.Obj) for a in args], [[k, canon(v, mod.Obj)] for k, v in kw.items()]]
-                  for fid, args, kw in mod.LOG]
+    structure = to_py(case["cfg"], {} if case.get("shared") else None)
+
+    def once():
+        del mod.LOG[:]
+        try:
+            res = Translator().translate_hierarchy(structure)
+            out = {"ok": canon(res, mod.Obj)}
+        except ConfigurationError as e:
+            out = {"err": e.where}
+        except Exception as e:
+            out = {"raised": type(e).__name__}
+        out["log"] = [[None, fid, [canon(a, mod.Obj) for a in args], [[k, canon(v, mod.Obj)] for k, v in kw.items()]]
+                      for fid, args, kw in mod.LOG]
+        return out
+
+    out = once()
+    extra = {}
+    if canon(structure, mod.Obj) != canon(to_py(case["cfg"]), mod.Obj):
+        extra["input_mutated"] = True
+    if case.get("twice"):
+        # the same hierarchy object translated a second time
+        again = once()
+        if renumber(again) != renumber(out):
+            extra["second"] = again
+    if extra:
+        out["extra"] = extra
     return out
+
+
+def renumber(out):
+    """object identities by order of first appearance (two translations allot different numbers)"""
+    ids = {}
+
+    def walk(v):
+        if isinstance(v, dict):
+            if "obj" in v and len(v) == 1:
+                return {"obj": ids.setdefault(v["obj"], len(ids))}
+            return {k: walk(x) for k, x in v.items()}
+        if isinstance(v, list):
+            return [walk(x) for x in v]
+        return v
+    return walk({"log": out.get("log"), "res": {k: v for k, v in out.items() if k not in ("log", "extra")}})
 
 
 def line(case, o):
@@ -93,7 +140,7 @@ def expect(case, o, m):
     if "driver_error" in m:
         return o, m
     strip = lambda log: [c[1:] for c in log]
-    a = {k: v for k, v in o.items() if k != "log"}
+    a = {k: v for k, v in o.items() if k not in ("log", "extra")}
     b = {k: v for k, v in m.items() if k != "log"}
     return (a, strip(o["log"])), (b, strip(m["log"]))
 
@@ -144,7 +191,12 @@ def oracle(case, o):
     except Fail as f:
         exp = {"err": f.path}
     out = []
-    got = {k: v for k, v in o.items() if k != "log"}
+    ex = o.get("extra", {})
+    if ex.get("input_mutated"):
+        out.append(("input-mutated", "translating changed the configuration it was given (plain data must be left unchanged)"))
+    if "second" in ex:
+        out.append(("second-translation-differs", "translating the same hierarchy again gives %r" % (ex["second"],)))
+    got = {k: v for k, v in o.items() if k not in ("log", "extra")}
     if got != exp:
         kind = "error-location" if "err" in exp or "err" in got else "result"
         out.append((kind, "translated %r, independent evaluation gives %r" % (got, exp)))
@@ -170,14 +222,15 @@ def shrinks(case):
                 for s in subs(c["m"][i][1]):
                     yield {"m": c["m"][:i] + [[c["m"][i][0], s]] + c["m"][i + 1:]}
     for s in subs(case["cfg"]):
-        yield {"cfg": s}
+        yield dict(case, cfg=s)
 
 
 def run(ctx):
     with Synth() as sy:
         CTX["mod"] = sy.mod
         rng = ctx.rng("trees")
-        cases = [{"cfg": gen_tree(rng, rng.randint(1, ctx.n(6, 9)))} for _ in range(ctx.n(3000, 40000))]
+        cases = [{"cfg": gen_tree(rng, rng.randint(1, ctx.n(6, 9))), "shared": rng.random() < 0.35, "twice": rng.random() < 0.35}
+                 for _ in range(ctx.n(3000, 40000))]
         corr.run_stream(ctx, "trees", cases, impl, line, oracle, nontrivial, shrinks, expect)
         for c in cases:
             ctx.tally("types=%d" % min(count_types(c["cfg"]), 6))
